@@ -54,6 +54,9 @@ def run(ctx):
     if not binp:
         ctx.broken_ties.append("harness e1/wire_test.go does not compile against the current tree")
         corr_broken.append("wire harness build")
+    elif ctx.replay_in:
+        e1util.replay(ctx, binp, [("TestVerifWireCorr", "wire", lambda o: True)], wire_oracle)
+        return
     else:
         run_wire(ctx, binp, corr_broken, ctx.budget(8000, 60000))
     # --- end-to-end oracle (network API + white-box quiescence only) ----------------------------
